@@ -252,6 +252,8 @@ func init() {
 	add(t("EVAL.status", "EVAL", FRead, w("EVAL"), lua("return {ok = ARGV[1]}"), in("0"), v("FINE")))
 	add(t("EVAL.error", "EVAL", FRead, w("EVAL"), lua("return {err = ARGV[1]}"), in("0"), v("custom failure")))
 	add(t("EVAL.bool", "EVAL", FRead, w("EVAL"), lua("return ARGV[1] == 'x'"), in("0"), v("x")))
+	add(t("EVAL.div", "EVAL", FRead, w("EVAL"), lua("return ARGV[1] / ARGV[2]"), in("0"), n("10"), n("4")))
+	add(t("EVAL.map", "EVAL", FRead, w("EVAL"), lua("return {[ARGV[1] + 0] = 'v', name = ARGV[2]}"), in("0"), n("1.5"), v("x")))
 	add(t("EVALRO", "EVALRO", FRead, w("EVALRO"), lua(ScriptBody), in("1"), k("fleet"), id("truck1")))
 	add(t("EVALNA", "EVALNA", FRead, w("EVALNA"), lua("return ARGV[1] .. ':' .. #KEYS"), in("1"), k("fleet"), v("x")))
 	add(t("EVALSHA", "EVALSHA", FScript, w("EVALSHA"), sha(ScriptSha), in("1"), k("fleet"), id("truck1")))
@@ -294,9 +296,9 @@ func init() {
 	add(t("CLIENT KILL", "CLIENT", FRead|FGlobal, w("CLIENT"), w("KILL"), w("ID"), in("999999")))
 	add(t("AUTH", "AUTH", FRead|FGlobal, w("AUTH"), v("secret")))
 	add(t("READONLY", "READONLY", FGlobal, w("READONLY"), w("no")))
-	add(t("FOLLOW", "FOLLOW", FGlobal, w("FOLLOW"), w("no"), w("one")))
-	add(t("FOLLOW.host", "FOLLOW", FGlobal, w("FOLLOW"), v("127.0.0.1"), in("9")))
-	add(t("SLAVEOF", "SLAVEOF", FGlobal, w("SLAVEOF"), w("no"), w("one")))
+	add(t("FOLLOW", "FOLLOW", FGlobal|FNoCmp, w("FOLLOW"), w("no"), w("one")))
+	add(t("FOLLOW.host", "FOLLOW", FGlobal|FNoCmp, w("FOLLOW"), v("127.0.0.1"), in("9")))
+	add(t("SLAVEOF", "SLAVEOF", FGlobal|FNoCmp, w("SLAVEOF"), w("no"), w("one")))
 	add(t("REPLCONF", "REPLCONF", FRead, w("REPLCONF"), w("listening-port"), in("9851")))
 	add(t("REPLCONF.ip", "REPLCONF", FRead, w("REPLCONF"), w("ip-address"), v("127.0.0.1")))
 	add(t("HELLO", "HELLO", FRead, w("HELLO"), in("3")))
@@ -343,6 +345,22 @@ func hostileFor(kd Kind) []string {
 		return HostileJSON
 	}
 	return HostileAny
+}
+
+// alwaysFor lists the hostile values tried at every token of a kind even when
+// the sweep is subsampled.
+func alwaysFor(kd Kind) []string {
+	switch kd {
+	case Num:
+		return []string{"", "nan", "inf"}
+	case Int:
+		return []string{"", "18446744073709551615", "9223372036854775807", "-1"}
+	case Key, ID, Field, Name, Pat, Path, Hash, Sha, URL:
+		return []string{"", `a"b`, "\xff\xfe"}
+	case JSON:
+		return []string{"{"}
+	}
+	return []string{""}
 }
 
 // Mutation describes what Mutate did (for logs and quarantine keys).
@@ -466,17 +484,20 @@ func Shapes(tm *Tmpl, rng *rand.Rand, perTok int, full bool) []Shape {
 			}
 		} else {
 			pick = rng.Perm(len(h))[:perTok]
-			// the empty string is always tried
-			has := false
-			for _, j := range pick {
-				if h[j] == "" {
-					has = true
+			// the values that are always tried for this kind
+			for _, must := range alwaysFor(tm.Toks[i].K) {
+				has := false
+				for _, j := range pick {
+					if h[j] == must {
+						has = true
+					}
 				}
-			}
-			if !has {
-				for j := range h {
-					if h[j] == "" {
-						pick = append(pick, j)
+				if !has {
+					for j := range h {
+						if h[j] == must {
+							pick = append(pick, j)
+							break
+						}
 					}
 				}
 			}
